@@ -321,8 +321,11 @@ class C11(Check):
         cases.append([['A', '/a/b', ['GET'], None, False], ['H', '/a', False], ['XH', '/a'], ['V', 'GET', '/a/b']])
         cases.append([['A', '/a/b', ['GET'], None, False], ['A', '/a/b/c', ['GET'], None, False], ['H', '/a/b', False],
                       ['X', '/a/b'], ['V', 'GET', '/a/b/c']])
+        # a second name for a route, then removal by the first (fixed by 10700d6)
+        cases.append([['A', '/a', ['GET'], 'n1', False], ['A', '/a', ['POST'], 'n2', False], ['XN', 'n1'], ['I', 'n2']])
         for _ in range(n):
             cases.append(E.gen_history(rng, max_edits=25)[0])
+        per_key = {}
         for ops in cases:
             evals += 1
             try:
@@ -334,21 +337,33 @@ class C11(Check):
             except Exception as e:
                 bad = [('exception', f'{type(e).__name__}: {e}')]
             for key, what in bad:
-                findings.append(Finding(f'C11:{key}', what, dict(ops=self._shrink(ops, key))))
+                per_key[key] = per_key.get(key, 0) + 1
+                if per_key[key] > 1:
+                    continue                     # one replay per failing site is enough
+                small = self._shrink(ops, key)
+                what2 = [w for k, w in self._safe_oracle(small) if k == key]
+                findings.append(Finding(f'C11:{key}', what2[0] if what2 else what, dict(ops=small)))
+            if len(per_key) >= 6:
+                break
+        for key, cnt in per_key.items():
+            self._bump('finding-' + key, cnt)
         return evals, findings
+
+    def _safe_oracle(self, ops):
+        try:
+            return self.oracle(ops)
+        except Exception:
+            return []
 
     def _shrink(self, ops, key):
         """drop ops while the same finding class stays (greedy, bounded)"""
         edits = [op for op in ops if op[0] in E.EDIT_KINDS]
         probes = [op for op in ops if op[0] not in E.EDIT_KINDS]
         cur = edits
-        budget = 120
+        budget = 80
 
         def fails(cand):
-            try:
-                return any(k == key for k, _ in self.oracle(cand + probes))
-            except Exception:
-                return False
+            return any(k == key for k, _ in self._safe_oracle(cand + probes))
         i = 0
         while i < len(cur) and budget > 0:
             cand = cur[:i] + cur[i + 1:]
